@@ -53,6 +53,11 @@ def plan(tier, seed):
         for r in (2, 3, 4):
             shards.append(("n", r, 1, alpha))
         shards.append(("n", 3, 2, alpha))
+    # columns of tiny magnitude (SI units): the formula is scale-free
+    for alpha in (4, 5):
+        for r in (2, 3, 4):
+            shards.append(("n", r, 1, alpha))
+        shards.append(("n", 3, 2, alpha))
     # the caller re-uses and overwrites its label array between two evaluations
     for L in (2, 3, 4):
         shards.append(("h", L))
@@ -138,7 +143,7 @@ def normalize_case(prog):
         return "normalize raised %r" % (ex,), "normalize raised"
     r, c = A.shape
     for j in range(c):
-        col = [F(x).limit_denominator(10 ** 9) for x in A[:, j]]
+        col = [F(float(x)) for x in A[:, j]]            # a float is an exact rational
         mean = sum(col) / r
         var = sum((x - mean) ** 2 for x in col) / r
         if var == 0:
@@ -219,7 +224,10 @@ def run(shard, seed):
     elif shard[0] == "n":
         _, r, c, alpha = shard
         vals = [0.0, 1.0, 2.0, 3.0] if not seed else [0.0, 0.5 * seed, 1.25, -2.0]
-        if alpha:
+        if alpha in (4, 5):
+            unit = {4: 1.6e-19, 5: 1.1e-26}[alpha]
+            vals = [0.0, unit, 2.5 * unit, -3.0 * unit]
+        elif alpha:
             base = {1: 1e8, 2: -1e6, 3: 1.6e9}[alpha]
             vals = [base + v for v in ([0.0, 1.0, 2.0, 3.0] if alpha != 3 else [0.0, 10.0, 20.0, 45.0])]
         for cells in itertools.product(vals, repeat=r * c):
